@@ -8,7 +8,7 @@ sys.path.insert(0, os.path.join(common.VERIF, 'props'))
 REG = {}
 for pid, mod in [
     ("C01", "p_bundles"), ("C02", "p_bundles"), ("C03", "p_bundles"), ("C08", "p_bundles"),
-    ("C31", "p_bundles"), ("C36", "p_unit"),
+    ("C31", "p_bundles"), ("C36", "p_unit"), ("C04", "p_c04"),
 ]:
   REG[pid] = mod
 try:
